@@ -82,3 +82,21 @@ Definition data_ok (d : dfa_data) : bool :=
   (dd_start d <? size)
   && Nat.eqb (length (dd_rows d)) (length (dd_infos d))
   && forallb (row_ok size None) (dd_rows d).
+
+(* `is_terminal` really means "no outgoing edge": checked over the whole table *)
+Definition terminal_ok (d : dfa) : bool :=
+  forallb
+    (fun ki : positive * info =>
+       negb (snd (fst (snd ki)))
+       || match PositiveMap.find (fst ki) (d_rows d) with
+          | Some [] | None => true
+          | Some (_ :: _) => false
+          end)
+    (PositiveMap.elements (d_infos d)).
+
+(* every accepting state carries at least one tag (decoder.rs:257-261 `expect`s one) *)
+Definition tagged_ok (d : dfa) : bool :=
+  forallb
+    (fun ki : positive * info =>
+       negb (fst (fst (snd ki))) || match snd (snd ki) with [] => false | _ :: _ => true end)
+    (PositiveMap.elements (d_infos d)).
